@@ -32,14 +32,15 @@ prop('C02', ['K5', 'K6', 'NS1', 'K2', 'D2', 'T2', 'M7', 'K4'],
      'discipline (K4).',
      ['equal dicts flatten equally for all inputs', 'None-removal law', 'predicate idempotence'])
 
-prop('C03', ['K1', 'K3', 'K4', 'K5', 'K7', 'K8', 'M7', 'F1', 'F14', 'F7', 'F10', 'T4', 'T2', 'NS1', 'D2'],
+prop('C03', ['K1', 'K3', 'K4', 'K5', 'K7', 'K8', 'M7', 'F1', 'F14', 'F7', 'F10', 'T4', 'T2', 'NS1', 'D2', 'N1', 'N2', 'M1', 'K2'],
      'Sibling traversals agree, decided on the 5 x 11 arm matrix: per kind the same accessor on '
      'the same container class, the same key pipeline, the same arity source (K3); the same '
      'effective visiting order (K4), where a traversal that asks the shared key sort for another order gets it after every stage of the sort (T2) and every traversal hands its options down its own recursion unchanged (NS1) and every public entry point has the same option defaults (F14); the flatten variants read the dict-order mode the same way and record the namespace in the treespec under the same condition (D2); predicate first everywhere (K5); the same validations of a '
      'custom flatten result with the same exception type at all five call sites (K7); the same '
      'depth discipline (K8); the Python wrappers are thin and forward the options unchanged, the '
      'reductions are folds over tree_leaves / tree_iter (F1, F7, F10); Python one-level handlers '
-     'agree with the engine arms (T4).',
+     'agree with the engine arms (T4). '
+     'The paths / accessors handed out by the flatten variants and those recomputed from the treespec come from producers that use the same entry per kind (N1, N2); every producer of nodes stores the same metadata shape (M1); the NoneIsLeaf / sort-mode variant taken equals the flag (K2).',
      ['equality of the produced lists for every input'])
 
 prop('C04', ['T5', 'N1', 'N2', 'N3', 'N4', 'N5', 'F8', 'M4', 'K4'],
@@ -54,7 +55,7 @@ prop('C04', ['T5', 'N1', 'N2', 'N3', 'N4', 'N5', 'F8', 'M4', 'K4'],
      'node_entries (M4); the backwards walkers reverse their result (K4).',
      ['accessor(tree) is the leaf', 'prefix-freeness of paths', 'codify/eval agreement'])
 
-prop('C05', ['F1', 'F14', 'F2', 'F3', 'F4', 'F11', 'W2', 'K3', 'M7', 'P1', 'P4', 'M2', 'M3'],
+prop('C05', ['F1', 'F14', 'F2', 'F3', 'F4', 'F11', 'W2', 'K3', 'M7', 'P1', 'P4', 'M2', 'M3', 'W1'],
      'tree_map family, structural part: options forwarded unchanged (F1); the six map functions, '
      'three transpose-map and three broadcast-map functions are one normal form modulo the '
      'declared variation points, with the extra iterable first (F2); every rest is matched by an '
@@ -65,18 +66,20 @@ prop('C05', ['F1', 'F14', 'F2', 'F3', 'F4', 'F11', 'W2', 'K3', 'M7', 'P1', 'P4',
      'same kind arms and key pipeline as flatten (K3, M7) and pairs dict children of a rest with '
      'the treespec\'s own keys (P1); the broadcast variants pair dict children by key (P4); the result is '
      'rebuilt by MakeNode through the inverse of what flatten stored, in the original key order '
-     '(M2, M3).',
+     '(M2, M3). '
+     'A dict rest whose keys come in another order is re-ordered completely by flatten_up_to (W1).',
      ['argument identity', 'functor laws'])
 
-prop('C06', ['H1', 'H4', 'H2', 'H3', 'P5', 'H5'],
+prop('C06', ['H1', 'H4', 'H2', 'H3', 'P5', 'H5', 'M1', 'M5', 'M6', 'S1'],
      'Equality and hash: every value that feeds HashCombine is compared strictly by EqualTo (H1); '
      'Python objects enter the hash through their Python hash, never their address (H4); '
      'EqualTo strictly compares size, none_is_leaf and per node kind / arity / registration / '
      'metadata and reads neither original_keys nor node_entries (H2); the six operators and their '
-     'bindings map to the right relation and strictness (H3).',
+     'bindings map to the right relation and strictness (H3). '
+     'The routes by which a treespec is obtained (flatten, constructors, children, compose, transform, unpickling) write the same node shapes and counts, which is what == and hash read (M1, M5, M6, S1).',
      ['equality semantics across construction routes'])
 
-prop('C07', ['P1', 'P2cxx', 'P2py', 'P3', 'P4', 'W1', 'H3', 'F12', 'F13', 'K3', 'M7', 'P5', 'H5'],
+prop('C07', ['P1', 'P2cxx', 'P2py', 'P3', 'P4', 'W1', 'H3', 'F12', 'F13', 'K3', 'M7', 'P5', 'H5', 'K2', 'NS1', 'T4'],
      'Prefix matching: per kind, the attributes compared by IsPrefix, FlattenUpTo, the broadcast '
      'walker and prefix_errors equal the reference table of the property statement (P1); '
      'structural mismatch raises ValueError only, prefix_errors constructs only ValueError, sorts '
@@ -86,10 +89,11 @@ prop('C07', ['P1', 'P2cxx', 'P2py', 'P3', 'P4', 'W1', 'H3', 'F12', 'F13', 'K3', 
      'branch of IsPrefix does not address the original node array with positions of the permuted '
      'working copy (W1); <, <=, >, >=, is_suffix are wired as converses (H3), the treespec_is_prefix '
      '/ treespec_is_suffix wrappers call the method of their name (F12); broadcast_prefix repeats '
-     'each prefix leaf once per leaf of the matching subtree (F13).',
+     'each prefix leaf once per leaf of the matching subtree (F13). '
+     'flatten_up_to looks custom nodes up in the variant and namespace of the treespec (K2, NS1); prefix_errors walks with the one-level handlers of the Python registry (T4).',
      ['exactness over all pairs', 'offset arithmetic of the re-ordering branch'])
 
-prop('C08', ['I3', 'M5', 'M5b', 'M6', 'F9', 'F12', 'W3', 'T6', 'K1', 'K3', 'M7', 'M1', 'P5'],
+prop('C08', ['I3', 'M5', 'M5b', 'M6', 'F9', 'F12', 'W3', 'T6', 'K1', 'K3', 'M7', 'M1', 'P5', 'K2', 'K4'],
      'Inspection / constructors: entry(i)/child(i) range test and normalisation dominate all uses '
      'of the index (I3); every new treespec gets none_is_leaf and namespace from its source(s) and '
      'passes the sanity check before it escapes (M5, 14 creation sites); a treespec derived from '
@@ -98,7 +102,8 @@ prop('C08', ['I3', 'M5', 'M5b', 'M6', 'F9', 'F12', 'W3', 'T6', 'K1', 'K3', 'M7',
      'says (F9); every treespec_<method>() wrapper calls that method with its arguments in the '
      'engine\'s order (F12); transform applies f_leaf to leaves and f_node to nodes and accepts '
      'only one-level replacements with the same flags (W3); the Python predicates use the engine\'s formulas (T6); K1; the collection '
-     'constructor enumerates children, keys and metadata exactly like flatten (K3, M7, M1).',
+     'constructor enumerates children, keys and metadata exactly like flatten (K3, M7, M1). '
+     'The constructor dispatch takes the variant of the flag (K2); children are listed left to right although the node array is walked backwards (K4).',
      ['count identities', 'transform/compose algebra', 'repr text'])
 
 prop('C09', ['M4', 'M5b', 'P1', 'P4', 'K4', 'F1', 'F14', 'F2', 'F11', 'F13', 'M2', 'P5', 'H5'],
@@ -121,28 +126,31 @@ prop('C10', ['F6', 'F2', 'F1', 'F14', 'P1', 'M2', 'M3'],
      'built from - flatten_up_to matching (P1) and unflatten (M2, M3) - keep their contracts.',
      ['involution law', 'value placement for all shapes'])
 
-prop('C11', ['S1', 'S2', 'S3', 'K2'],
+prop('C11', ['S1', 'S2', 'S3', 'K2', 'NS1'],
      'Pickling: writer and reader use the same position -> field table and every Node field is in '
      'it (S1); custom nodes are re-bound with the recorded namespace and the matching variant, a '
      'null registration is rejected (S2, K2); the reader validates the shapes later unchecked '
-     'reads rely on (S3).',
+     'reads rely on (S3). '
+     'The loader looks custom types up in the recorded namespace (NS1).',
      ['cross-process behaviour', 'protocols', 'post-load equality'])
 
-prop('C12', ['G7', 'G1', 'G2', 'G3', 'G4', 'G8', 'G5', 'G6', 'L4', 'K6', 'K6py', 'NS1'],
+prop('C12', ['G7', 'G1', 'G2', 'G3', 'G4', 'G8', 'G5', 'G6', 'L4', 'K6', 'K6py', 'NS1', 'D4'],
      'Registry: validation dominates mutation and nothing fallible follows the first mutation '
      '(G1); no C-API failure result is ignored (G2); the Python mirror is written only after the '
      'engine call, under the lock, with the same key, by exactly two functions (G3); a mutation '
      'addressed to a namespace touches only that namespace\'s map (G6); all six entry '
      'points validate class and namespace first (G4); references are paired (G5); check-then-act '
      'is one exclusive region and Lookup returns by value (L4); lookup order in engine and Python '
-     'twin, and the Python listing lets the namespace entry win (K6, K6py); the namespace asked for is handed down unchanged to every engine function that takes one (NS1); both registries (None-is-node, None-is-leaf) are updated by every register / unregister call (G7); the decorator-factory forms carry every option to the deferred call (G8).',
+     'twin, and the Python listing lets the namespace entry win (K6, K6py); the namespace asked for is handed down unchanged to every engine function that takes one (NS1); both registries (None-is-node, None-is-leaf) are updated by every register / unregister call (G7); the decorator-factory forms carry every option to the deferred call (G8). '
+     'The Python listing substitutes the insertion-ordered dict entries exactly when flattening in that namespace would (D4).',
      ['behaviour after arbitrary histories'])
 
-prop('C13', ['D1', 'D2', 'D3', 'D4', 'K2', 'NS1'],
+prop('C13', ['D1', 'D2', 'D3', 'D4', 'K2', 'NS1', 'G4'],
      'Dict-order mode: the context manager saves the namespace\'s own flag in the same locked '
      'block as the switch and restores exactly it in a finally, on every path (D1); all four '
      'traversals consult the mode of the caller\'s namespace with global inheritance and never '
-     'sort OrderedDict (D2, K2); the namespace is handed down unchanged (NS1); set/query shapes (D3); the Python-visible registry substitutes the insertion-ordered dict / defaultdict entries exactly when the mode of the asked namespace is on, in both lookup forms (D4).',
+     'sort OrderedDict (D2, K2); the namespace is handed down unchanged (NS1); set/query shapes (D3); the Python-visible registry substitutes the insertion-ordered dict / defaultdict entries exactly when the mode of the asked namespace is on, in both lookup forms (D4). '
+     'The context manager validates its namespace before anything is switched (G4).',
      ['restoration over all nestings (follows from D1 by an induction the checker does not make)'])
 
 prop('C14', ['A1', 'A3', 'A5', 'A6', 'A7', 'G5', 'M3'],
